@@ -120,8 +120,123 @@ def classify_v1(tree, pl, order=None):
     return classes
 
 
+# ------------------------------------------------------------------------------ symbolic links inside a payload
+# A value ("symlink", target) describes a symbolic link: `target` is the text of the link (what os.symlink gets), a
+# '/'-separated path RELATIVE TO THE DIRECTORY OF THE LINK that names another file of the same tree.  The creators follow links
+# (getsize / open / isfile), so for a reader the link is a file named like the link with the target's bytes: resolve_links
+# gives that view (plain bytes everywhere) -- it is what every judge and every classifier gets; the link-bearing tree is only
+# what write_tree / rewrite_tree / mutate_tree handle.
+def is_link(v):
+    return isinstance(v, tuple) and len(v) == 2 and v[0] == "symlink"
+
+
+def link_key(comps, target):
+    """key of the file the link at `comps` points to (lexical: the trees have no symlinked directories)"""
+    out = list(comps[:-1])
+    for c in target.split("/"):
+        if c in ("", "."):
+            continue
+        if c == "..":
+            if not out:
+                raise ValueError(f"link {'/'.join(comps)} -> {target} leaves the payload")
+            out.pop()
+        else:
+            out.append(c)
+    return tuple(out)
+
+
+def has_links(tree):
+    return any(is_link(v) for v in tree.values())
+
+
+def resolve_links(tree):
+    """the tree as a reader that follows links sees it: every link is a file with the target's bytes"""
+    if not has_links(tree):
+        return tree
+    out = {}
+    for k, v in tree.items():
+        at, hops = k, 0
+        while is_link(v):
+            at = link_key(at, v[1])
+            v, hops = tree[at], hops + 1
+            if hops > len(tree):
+                raise ValueError("symlink loop")
+        out[k] = v
+    return out
+
+
+def link_summary(tree):
+    return {"/".join(k): v[1] for k, v in sorted(tree.items()) if is_link(v)}
+
+
+LINK_NAMES = ["lnk", "0-link", "alias.bin", "a link", "zz.lnk", "é-lnk", "L"]
+LINK_SHAPES = ("to a sibling", "into a sub-directory", "from a sub-directory upwards")
+
+
+def add_links(rng, tree, shapes=LINK_SHAPES):
+    """adds one symbolic link per shape to a directory tree (new dict, classes): a link to a file of its own directory, a link
+       whose target lies in a sub-directory of the link's directory, a link in a sub-directory whose target lies above it
+       (target text with ..).  A tree without a nested file gets one first when a shape needs it.  Links point at regular files
+       or (rarely) at another link; names are new in their directory"""
+    new = dict(tree)
+    classes = set()
+    if list(tree) == [()]:
+        return new, classes
+
+    def free(dirc):
+        for n in rng.sample(LINK_NAMES, len(LINK_NAMES)):
+            k = dirc + (n,)
+            if k not in new and not any(q[:len(k)] == k for q in new):
+                return k
+        return None
+
+    def pick(cands):            # mostly a regular file, now and then another link (a chain)
+        reg = [q for q in cands if not is_link(new[q])]
+        return rng.choice(reg if reg and rng.random() < 0.8 else cands)
+
+    if ("into a sub-directory" in shapes or "from a sub-directory upwards" in shapes) and not any(len(k) > 1 for k in new):
+        d = next((n for n in ("ldir", "ldir2", "l.d") if not any(k[0] == n for k in new)), None)
+        if d:
+            new[(d, "t.bin")] = rng.randbytes(rng.choice([1, B + 1, 3 * B + 5]))
+    for shape in shapes:
+        keys = sorted(new)
+        if shape == "to a sibling":
+            t = pick(keys)
+            k = free(t[:-1])
+            target = t[-1]
+        elif shape == "into a sub-directory":
+            deep = [q for q in keys if len(q) > 1]
+            if not deep:
+                continue
+            t = pick(deep)
+            up = rng.randrange(0, len(t) - 1)           # the link sits `len(t) - 1 - up` levels above its target
+            k = free(t[:up])
+            target = "/".join(t[up:])
+        else:
+            deep = sorted({q[:j] for q in keys for j in range(1, len(q))})
+            deep = [d for d in deep if any(q[:len(d)] != d for q in keys)]
+            if not deep:
+                continue
+            d = rng.choice(deep)
+            t = pick([q for q in keys if q[:len(d)] != d])        # a file that is not below the link's directory
+            common = 0
+            while common < min(len(d), len(t) - 1) and d[common] == t[common]:
+                common += 1
+            k = free(d)
+            target = "/".join([".."] * (len(d) - common) + list(t[common:]))
+        if k is None:
+            continue
+        if link_key(k, target) != t:
+            raise AssertionError(f"link generator: {k} -> {target} does not name {t}")
+        new[k] = ("symlink", target)
+        classes.add("file symlink " + shape)
+        if is_link(new[t]):
+            classes.add("file symlink to a symlink")
+    return new, classes
+
+
 def write_tree(root, tree):
-    """root: path of the payload (file or directory)"""
+    """root: path of the payload (file or directory); a value ("symlink", target) becomes a symbolic link"""
     if list(tree) == [()]:
         os.makedirs(os.path.dirname(root), exist_ok=True)
         with open(root, "wb") as fd:
@@ -131,11 +246,20 @@ def write_tree(root, tree):
     for comps, data in tree.items():
         p = os.path.join(root, *comps)
         os.makedirs(os.path.dirname(p), exist_ok=True)
+        if is_link(data):
+            if os.path.lexists(p):
+                os.remove(p)
+            os.symlink(data[1], p)
+            continue
+        if os.path.islink(p):           # a regular file takes the place of a link: never write through it
+            os.remove(p)
         with open(p, "wb") as fd:
             fd.write(data)
 
 
 def tree_summary(tree):
+    """sizes as a reader following links sees them"""
+    tree = resolve_links(tree)
     return {"/".join(k) if k else "<single>": len(v) for k, v in sorted(tree.items())}
 
 
@@ -189,15 +313,21 @@ def mutate_tree(rng, tree, pl):
     new = dict(tree)
     keys = sorted(tree)
     single = keys == [()]
+    # symbolic links (values ("symlink", target)): a link may be removed, its target may not (no dangling links); a resize
+    # goes to a regular file (the links to it change with it).  Without links every choice is as it always was
+    targets = {link_key(k, v[1]) for k, v in tree.items() if is_link(v)}
+    plain = resolve_links(tree)
     r = rng.random()
     if not single and r < 0.2:
         name = next(n for n in ("added.bin", "added2.bin", "zz-added") if (n,) not in tree and not any(k[0] == n for k in tree))
         new[(name,)] = rng.randbytes(rng.choice([1, pl - 1, pl, pl + 1, 2 * pl + 5]))
         return new, {"added": name, "size": len(new[(name,)])}
-    if not single and r < 0.4 and len(keys) > 1:
-        k = rng.choice(keys)
+    removable = [k for k in keys if k not in targets]
+    if not single and r < 0.4 and len(keys) > 1 and removable:
+        k = rng.choice(removable)
         del new[k]
-        return new, {"removed": "/".join(k), "size": len(tree[k])}
+        return new, {"removed": "/".join(k), "size": len(plain[k])}
+    keys = [k for k in keys if not is_link(tree[k])]
     k = rng.choice(keys)
     old = len(tree[k])
     grow = old == 0 or rng.random() < 0.6
